@@ -22,6 +22,8 @@ func main() {
 	switch cmd {
 	case "hist":
 		histCmd(out, *seed, *tier)
+	case "balloon":
+		balloonCmd(out, *seed, *tier)
 	default:
 		fmt.Fprintln(os.Stderr, "unknown command", cmd)
 		os.Exit(2)
